@@ -310,18 +310,31 @@ func (c vf29Conns) Get(_ context.Context, ni netmap.NodeInfo) (clientcore.MultiA
 type vf29RealHandlers struct {
 	w   *vf29World
 	get *getsvc.Service
+	// entry hook: lets the harness play "the object was replicated to this node after the
+	// request-stage access check and before the get service looked for it"
+	before *func()
 }
 
+func (h vf29RealHandlers) hook() {
+	if h.before != nil && *h.before != nil {
+		f := *h.before
+		*h.before = nil
+		f()
+	}
+}
 func (h vf29RealHandlers) Get(ctx context.Context, p getsvc.Prm) error {
 	h.w.log.read("handlers.Get")
+	h.hook()
 	return h.get.Get(ctx, p)
 }
 func (h vf29RealHandlers) Head(ctx context.Context, p getsvc.HeadPrm) error {
 	h.w.log.read("handlers.Head")
+	h.hook()
 	return h.get.Head(ctx, p)
 }
 func (h vf29RealHandlers) GetRange(ctx context.Context, p getsvc.RangePrm) error {
 	h.w.log.read("handlers.GetRange")
+	h.hook()
 	return h.get.GetRange(ctx, p)
 }
 func (h vf29RealHandlers) Delete(context.Context, deletesvc.Prm) error {
@@ -424,7 +437,7 @@ type vf29POutcome struct {
 	Events     []vf29Event `json:"events,omitempty"`
 }
 
-var vf29PLocations = []string{"local", "remote", "ec-local", "ec-remote", "split-local"}
+var vf29PLocations = []string{"local", "remote", "ec-local", "ec-remote", "split-local", "local-late"}
 var vf29PFilters = []string{"attribute", "objectID", "payloadLength", "ownerID"}
 
 // vf29PFire executes case c with the forbidden or the allowed twin of the object.
@@ -520,7 +533,8 @@ func vf29PFire(r *verifkit.Run, st *vf29Store, c *vf29PCase, forbidden bool, kee
 		getsvc.WithClientConstructor(conns),
 		getsvc.WithKeyStorage(objutil.NewKeyStorage(w.node.key, pn, pn)),
 	)
-	w.finish(st.eng, vf29RealHandlers{w: w, get: gs}, conns)
+	var before func()
+	w.finish(st.eng, vf29RealHandlers{w: w, get: gs, before: &before}, conns)
 
 	// place the object
 	switch c.Location {
@@ -548,6 +562,16 @@ func vf29PFire(r *verifkit.Run, st *vf29Store, c *vf29PCase, forbidden bool, kee
 		if c.Filter == "objectID" && forbidden {
 			tb := eacl.NewTableForContainer(w.cnrID, []eacl.Record{eacl.ConstructRecord(eacl.ActionDeny, op, []eacl.Target{eacl.NewTargetByRole(eacl.RoleOthers)}, eacl.NewFilterObjectWithID(objID))})
 			w.eacl = &tb
+		}
+	case "local-late":
+		before = func() {
+			st.sink.cur.Store(nil) // the replication itself is not part of the request
+			err := st.eng.Put(context.Background(), obj, nil)
+			st.sink.cur.Store(w.log)
+			if err != nil {
+				panic("vf29 harness: late put: " + err.Error())
+			}
+			w.log.read("object replicated to the local engine (after the request-stage check)")
 		}
 	case "local":
 		if err := st.eng.Put(context.Background(), obj, nil); err != nil {
@@ -786,7 +810,7 @@ func TestVerif_C29_Payload(t *testing.T) {
 	r.SetRule("per case one GET / HEAD / RANGE of an object whose header is (forbidden twin) or is not (allowed twin) matched by a DENY rule of the container eACL for the sender's role; RPC x body variant x object location (local / remote REP node / EC part local / EC parts remote) x filter kind (user attribute, object id, payload length, owner) x TTL x version x payload size; distinct = that tuple; non-trivial = the allowed twin was delivered completely through the same path")
 	r.Assume("real object server + real getsvc.Service + real single-shard engine + real ACL stack; remote storage nodes are scripted gRPC servers that trust container peers")
 	st := vf29OpenStore(t)
-	n := r.Pick(240, 6000)
+	n := r.Pick(240, 3000)
 	judged := map[string]int{}
 	for idx := 0; idx < n; idx++ {
 		c := vf29PGen(r, idx)
